@@ -1,7 +1,9 @@
 """C11 — forms with different compiled meaning never share a signature; equal forms always do.
 
 spec/Signature.tla defines form programs (tables of meshes / function spaces / coefficients /
-constants + integrals [type, subdomain id, metadata, domain, integrand tree]), `Canon` = the
+constants, each coefficient / constant with the Python class it is an instance of: ufl's own or a
+user subclass + integrals [type, subdomain id, metadata, domain, integrand tree, intersect measures
+of a multi-domain integral]), `Canon` = the
 program modulo exactly the numberings the signature is specified to ignore, single-site mutations
 for every kind of site and renamings that change only ignorable numbering.  TLC explores, for
 every program of each bounded universe, every mutation, every renaming and every renaming of every
@@ -901,6 +903,15 @@ def _x_mesh_id_permuted(e, variant):
     return ufl.CellVolume(m1) * ufl.dx(domain=m1) + ufl.CellVolume(m2) * ufl.dx(domain=m2)
 
 
+def _x_lt_subclass_operand(e, variant):
+    # ufl.lt(f, g) is `f < g`; Python calls g.__gt__(f) first when type(g) is a proper subclass of
+    # type(f): with g an instance of a user subclass of Coefficient the expression is GT(g, f), not
+    # LT(f, g) -- the same condition, another expression (and signature) than with a plain g
+    ufl = e["ufl"]
+    g = counted_classes()["coef"][0 if variant == "a" else 1](e["S"], count=e["base"] + 2)
+    return ufl.conditional(ufl.lt(e["f"], g), e["f"], 0.5) * ufl.dx
+
+
 def _x_interp_operand(e, variant):
     from vf.elements import LagrangeElement
 
@@ -941,6 +952,7 @@ def extras():
         ("index-counts-in-reversed-order(C12)", _x_index_order_reversed, "unjudged", "index-count-order-reversed"),
         ("constant-counts-across-digit-boundary(C12)", _x_constant_digits, "unjudged", "constant-count-digit-boundary"),
         ("mesh-ids-permuted(C12)", _x_mesh_id_permuted, "unjudged", "mesh-id-permutation"),
+        ("lt-with-subclass-operand", _x_lt_subclass_operand, "unjudged", "lt-reflected-for-subclass-operand"),
     ]
 
 
@@ -1051,7 +1063,8 @@ def random_programs(seed, n):
             for _ in range(20):
                 x = term(depth - 1)
                 if not is_lit(x):
-                    return _N(rng.choice(["sin", "cos", "exp", "abs"]), [], [x])
+                    # abs(abs(x)) and abs(inner(a, b)) are simplified by the constructor (NodeOK in the spec)
+                    return _N(rng.choice(["sin", "cos", "exp"] if x["op"] in ("abs", "inner") else ["sin", "cos", "exp", "abs"]), [], [x])
             return closed()
         if r < 0.85:
             for _ in range(20):
@@ -1121,8 +1134,10 @@ def run(ctx, args):
         return selftest(ctx)
     quick = ctx.tier == "quick"
     ctx.rule = (
-        "TLC enumerates, for every well-formed program of eight bounded universes (scalar algebra, index notation, conditionals, "
-        "derivatives/restrictions/variables, base form operators, metadata, measures with 1-2 integrals, elements/domains)"
+        "TLC enumerates, for every well-formed program of nine bounded universes (scalar algebra, index notation, conditionals, "
+        "derivatives/restrictions/variables, base form operators, metadata, measures with 1-2 integrals, elements/domains, multi-domain "
+        "integrals with intersect measures over three meshes; coefficients and constants are instances of ufl's classes and of user "
+        "subclasses of them, mixed within one form)"
         + ("" if quick else " and for a seeded sample of larger composed programs (1-3 integrals, depth <= 4)")
         + ", every single-site mutation (one state per site and new value), every renaming of ignorable numbering, and every renaming of "
         "every mutant; every state is built as a real ufl form through the public API with fresh objects and other counts, and within "
@@ -1130,10 +1145,12 @@ def run(ctx, args):
         "as Canon does.  distinct non-trivial = distinct (universe, kind, mutated/renamed program), the base programs themselves excluded"
     )
     ctx.cov["exhaustive"] = True
-    ctx.assume("Canon (spec/Signature.tla header) is the meaning: it ignores only counts/ufl_ids up to order, free-index names, the order of integrals with different keys, tuple-subdomain-id order, sortable sum/product operand order, metadata key order")
+    ctx.assume("Canon (spec/Signature.tla header) is the meaning: it ignores only counts/ufl_ids up to order, free-index names, the order of integrals with different keys, tuple-subdomain-id order, sortable sum/product operand order, metadata key order, the Python class (ufl's or a user subclass) of a coefficient / constant, the order in which intersect measures are given")
+    ctx.assume("conditions are built with the classes LT, GT, ... (ufl.lt(l, r) = l < r is evaluated by Python as GT(r, l) when type(r) is a proper subclass of type(l): recorded, not judged)")
+    ctx.assume("multi-domain integrals: the signature is computed on the form as written (no check that the integral types on the other meshes are geometrically consistent); products of geometric quantities of two different meshes are not generated (their operand order follows the raw mesh ids: C12)")
     ctx.assume("all counts / ufl_ids of one build have the same number of digits (repr-string ordering across 9->10 is C12's subject); renamings are order preserving")
     ctx.assume("element data is what vf.elements.FiniteElement puts into repr (family, cell, degree, reference shape, pullback, Sobolev space, sub-elements); embedded sub-degree is not varied")
-    ctx.assume("programs avoid constructor simplifications (no literal 0/1, no literal-literal operands, no a/a, no conditional with equal branches, no derivative of constants) so that Canon-different programs have different meaning")
+    ctx.assume("programs avoid constructor simplifications (no literal 0/1, no literal-literal operands, no a/a, no conditional with equal branches, no derivative of constants, no abs of abs / of inner) so that Canon-different programs have different meaning")
     ctx.assume("restricted integrands only in interior-facet integrals; other integrands in cell / exterior-facet / vertex integrals")
     start_pool()
     t0 = time.time()
@@ -1214,7 +1231,7 @@ def replay(ctx, doc):
 
 def selftest(ctx):
     """Corrupted predictions and in-process mutants of the real signature code must be rejected."""
-    jobs = [Job("deriv", 1, False), Job("md", 1, False), Job("measure", 1, False), Job("cond", 1, False)]
+    jobs = [Job("deriv", 1, False), Job("md", 1, False), Job("measure", 1, False), Job("cond", 1, False), Job("xm", 1, False)]
     run_jobs(ctx, jobs)
     groups = {j.univ: neighbourhoods(j) for j in jobs}
     allg = [g for u in groups for g in groups[u]]
@@ -1324,6 +1341,51 @@ def selftest(ctx):
         lambda: setattr(IntValue, "_ufl_signature_data_", orig_int),
         groups["cond"],
         ["C11:collision:literal-int"],
+    )
+    from collections import defaultdict
+
+    from ufl.form import Form
+    from ufl.utils.sorting import sorted_by_count
+
+    orig_tn = Form.terminal_numbering
+
+    def tn_by_python_class(self):
+        from ufl.algorithms.analysis import extract_type
+        from ufl.utils.counted import Counted
+
+        by = defaultdict(set)
+        for e in extract_type(self, Counted):
+            by[type(e)].add(e)
+        return {e: i for es in by.values() for i, e in enumerate(sorted_by_count(es))}
+
+    mutant(
+        "terminal-numbering-per-python-class",
+        lambda: setattr(Form, "terminal_numbering", tn_by_python_class),
+        lambda: setattr(Form, "terminal_numbering", orig_tn),
+        groups["cond"],
+        ["C11:collision:coef-identity", "C11:unstable:rename-coefficient-classes"],
+    )
+    orig_extra = Integral.extra_domain_integral_type_map
+
+    class _AnyMesh:
+        """Stands for every other mesh in the hash data: which mesh an intersect measure refers to is lost."""
+
+        def _ufl_signature_data_(self, renumbering):
+            return "Mesh"
+
+    def cfs_without_extra_meshes(form, renumbering):
+        Integral.extra_domain_integral_type_map = lambda self: {_AnyMesh(): t for t in orig_extra(self).values()}
+        try:
+            return orig_cfs(form, renumbering)
+        finally:
+            Integral.extra_domain_integral_type_map = orig_extra
+
+    mutant(
+        "intersect-measure-mesh-dropped-from-integral-hashdata",
+        lambda: setattr(sigmod, "compute_form_signature", cfs_without_extra_meshes),
+        lambda: setattr(sigmod, "compute_form_signature", orig_cfs),
+        groups["xm"],
+        ["C11:collision:xmeasure-domain"],
     )
     ctx.traces(sum(len(g) for g in allg))
     ctx.evaluated(len(rejected))
